@@ -966,3 +966,44 @@ F("U06", "C19", LA_, _ZP, "      if b:\n        b.insert(nrows, b.pop(i))\n     
 F("U07", "C19", LA_, _ZP, "      if b:\n        b.insert(nrows - 1, b.pop(i))\n      a.insert(nrows - 2, a.pop(i))\n      pivots += 1", "R-C19-LINALG", "a and b moved to different places")
 T("U08", "C19", LA_, _ZP, "      last = nrows - 1\n      if b:\n        b.insert(last, b.pop(i))\n      a.insert(last, a.pop(i))\n      pivots += 1", "position through a temporary")
 T("U09", "C19", LA_, _ZP, "      row = a.pop(i)\n      a.insert(nrows - 1, row)\n      if b:\n        rhs = b.pop(i)\n        b.insert(nrows - 1, rhs)\n      pivots += 1", "pop and insert split")
+
+
+# ---------------------------------------------------------------------------------- seeded round 9
+S("V01", "C01", "C01-r9a", "R-C01-CERT", "rsa_util.FactorHighAndLowBitsEqual (helper behind CheckHighAndLowBitsEqual) no longer reco")
+S("V02", "C01", "C01-r9b", "R-C01-WEAK", "util.SetTestResult no longer sets TestInfo.weak from the incoming test_result.result; afte")
+S("V03", "C02", "C02-r9a", "R-C02-CODEC", "EcCurve.ExtendedBatchDL now 'normalises' the found discrete log with `dlog * multiplier % ")
+S("V04", "C02", "C02-r9b", "R-C02-ALIGN", "In CheckCr50U2f.Check the issuer_dlogs map is now initialised once before the per-curve lo")
+S("V05", "C03", "C03-r9a", "R-C03-DEDUP", "rsa_util.BatchGCD no longer multiplies T by other_values_prod before the remainder tree; i")
+S("V06", "C03", "C03-r9b", "R-C03-VERDICT", "CheckGCDN1.Check compares bit lengths (gcds[i].bit_length() >= self._gcd_bound.bit_length(")
+S("V07", "C04", "C04-r9a", "R-C04-EXHAUST", "special_case_factoring.FactorWithGuess now stops iterating over the continued-fraction con")
+S("V08", "C04", "C04-r9b", "R-C04-MSB", "CheckUnseededRand.Check now builds the top-bit variants (p_0 | msb_1, p_0 | msb_11) only f")
+S("V09", "C05", "C05-r9a", "R-C05-EXHAUST", "In CheckPermutedBitPatterns.Check (rsa_single_checks.py) the outer-loop exit `if test_resu")
+S("V10", "C05", "C05-r9b", "R-C05-CUT", "In CheckBitPatterns.Check (rsa_single_checks.py) the skip of pattern sizes larger than n.b")
+S("V11", "C06", "C06-r9a", "R-C06-PRED", "rsa_single_checks.CheckOpensslDenylist.__init__ now memoises the parsed denylist in a clas")
+S("V12", "C06", "C06-r9b", "R-C06-PRED", "ec_util.EcCurve.Multiply now reduces the multiplier modulo the generator order first (`n %")
+S("V13", "C07", "C07-r9a", "R-C07-NEIGHBOUR", "In ecdsa_sig_checks.CheckIssuerKey.Check the per-issuer-key `test_result = self._CreateTes")
+S("V14", "C07", "C07-r9b", "R-C07-NEIGHBOUR", "In ec_util.EcCurve.BatchDLOfDifferences a point is now appended to the running `negated` c")
+S("V15", "C08", "C08-r9a", "R-C08-FEED", "ec_util.ECDSAValues now passes h.bit_length() (bit length of the digest interpreted as an ")
+S("V16", "C08", "C08-r9b", "R-C08-GUESS", "EcCurve._cache (the table of window multiples of the generator used by BatchMultiplyG) was")
+S("V17", "C09", "C09-r9a", "R-C09-PAIR", "In BiasedBaseCheck.Check (ecdsa_sig_checks.py) the signature whose (r, s, hash) is turned ")
+S("V18", "C09", "C09-r9b", "R-C09-FEED", "ec_util.ECDSAValues now passes the message hash length in bytes (hlen = len(sig.message_ha")
+S("V19", "C10", "C10-r9a", "R-C10-TABLE", "EcCurve.PointTable now skips the point at infinity (x-coordinate None) when filling the ba")
+S("V20", "C10", "C10-r9b", "R-C10-DUP", "In EcCurve.BatchDLOfDifferences the duplicate-key skip ('if x is None: continue') became '")
+S("V21", "C11", "C11-r9a", "R-C11-DISPATCH", "EcCurve.BatchAddList: the fall-back branch taken when BatchInverse returns None no longer ")
+S("V22", "C11", "C11-r9b", "R-C11-SCALAR", "EcCurve.MultiplyAffine: the double-and-add loop now stops at 'while n > 1' and the top bit")
+S("V23", "C12", "C12-r9a", "R-C12-CONSIST", "In nist_suite.RankDistribution the shortcut that returns the precomputed asymptotic square")
+S("V24", "C12", "C12-r9b", "R-C12-CUSUM", "In nist_suite.RandomWalk the two independent fall-backs that recover the walk's maximum an")
+S("V25", "C13", "C13-r9a", "R-C13-RANK", "In extended_nist_suite.LargeBinaryMatrixRank the loop over matrix sizes now runs `while si")
+S("V26", "C13", "C13-r9b", "R-C13-STATE", "In random_test_suite.TestStructure.Run the repeat threshold CombinedPValue([p_value_repeat")
+S("V27", "C14", "C14-r9a", "R-C14-CLOSED", "In berlekamp_massey.LfsrCount the dedicated `elif m == 0: return 1` branch was removed, so")
+S("V28", "C14", "C14-r9b", "R-C14-CLOSED", "In berlekamp_massey.LfsrLogProbability the argument guard `if m < 0 or m > n` was rewritte")
+S("V29", "C16", "C16-r9a", "R-C16-ONCE", "rsa_single_checks.CheckUnseededRand.Check now skips a key with `continue` (before its Test")
+S("V30", "C16", "C16-r9b", "R-C16-MONO", "util.SetTestResult no longer only raises test_info.weak on a positive result but recompute")
+S("V31", "C17", "C17-r9a", "R-C17-BYVALUE", "In ntheory_util.ExtendedProductTree (the producer of the value T = sum(P//v) that rsa_util")
+S("V32", "C17", "C17-r9b", "R-C17-INDIVIDUAL", "In rsa_single_checks.CheckKeypairDenylist.Check the 32-byte seed buffer used to re-generat")
+S("V33", "C18", "C18-r9a", "R-C18-NULL", "In rsa_util.FactorHighAndLowBitsEqual the guard `if n % 8 != 1: return None` was micro-opt")
+S("V34", "C18", "C18-r9b", "R-C18-ALIGN", "In ecdsa_sig_checks.BiasedBaseCheck.Check the issuer-key -> signature-index map is now bui")
+S("V35", "C19", "C19-r9a", "R-C19-SIEVE", "ntheory_util.Sieve was 'optimised' to an odd-only sieve (even numbers crossed out by one s")
+S("V36", "C19", "C19-r9b", "R-C19-HENSEL", "ntheory_util.InverseSqrt2exp: the brute-force special case for k < 3 and the separate `n %")
+S("V37", "C20", "C20-r9a", "R-C20-CONST", "In TruncLcgRand.RandomBits the LCG step was 'optimised' to use a hoisted bit mask, but the")
+S("V38", "C20", "C20-r9b", "R-C20-PURE", "XorShiftStar.RandomBits now treats a reduced 64-bit state of 0 like a missing seed: x = se")
